@@ -178,7 +178,7 @@ func genReconn(r *Rng, prop string) *Scenario {
 	cfg.LatB2CUs = r.between(20, 300)
 	cfg.DialLatUs = r.between(10, 200)
 	cfg.ReconnBaseUs = r.pickI(500, 1000, 2000, 3000)
-	cfg.ReconnMaxUs = cfg.ReconnBaseUs * r.pickI(2, 3, 4, 5, 6, 7, 8, 11, 13, 16, 24) / 2 // also maxima that are no power-of-two multiple of the base
+	cfg.ReconnMaxUs = cfg.ReconnBaseUs * r.pickI(2, 3, 4, 5, 6, 7, 8, 11, 13, 16, 24, 1) / 2 // also maxima that are no power-of-two multiple of the base, and one below the base
 	cfg.BrokerMethod = r.pick("A", "B")
 	cfg.InitIDs = spacedInitIDs(r, 12)
 	cfg.AutoPubRel = true
@@ -594,6 +594,21 @@ func genReconn(r *Rng, prop string) *Scenario {
 		}
 	}
 
+	if earlyPub && (prop == "C02" || prop == "C12" || prop == "C01") && r.chance(0.3) {
+		// aimed: the network ends a connection in the very instant in which a
+		// request is made on it: with an early-reply peer the whole exchange up to
+		// the final acknowledgement and the end of the connection reach the client
+		// together (this is what showed F20 in the thorough tier)
+		var cand []int64
+		for _, op := range sc.Ops {
+			if op.Kind == "publish" && op.QoS > 0 {
+				cand = append(cand, op.AtUs)
+			}
+		}
+		if len(cand) > 0 {
+			sc.Faults = append(sc.Faults, Fault{Kind: "cutAt", Conn: 1, AtUs: cand[r.IntN(len(cand))]})
+		}
+	}
 	if prop == "C09" && r.chance(0.1) {
 		// an application Ping that is never answered (no deadline of its own) while
 		// Disconnect is called: Disconnect returns all the same
